@@ -164,6 +164,23 @@ class StrFold:
             elif b < 128:
                 out.append(bytes(bs[i + 1:i + 1 + b]).decode("utf-8", "replace"))
                 i += 1 + b
+            elif b == 128 and i + 2 < len(bs):
+                n = bs[i + 1] | (bs[i + 2] << 8)
+                out.append(bytes(bs[i + 3:i + 3 + n]).decode("utf-8", "replace"))
+                i += 3 + n
+            elif b > 192:
+                # placeholder with options (library/core/src/fmt/mod.rs): bit 0 flags (u32), bit 1 width (u16), bit 2 precision (u16), bit 3 argument index (u16),
+                # bits 4 / 5 width / precision taken from an argument; all little endian
+                i += 1
+                ph = {"flags": None, "width": None, "precision": None, "index": None, "indirect": bool(b & 0x30)}
+                if b & 1:
+                    ph["flags"] = bs[i] | (bs[i + 1] << 8) | (bs[i + 2] << 16) | (bs[i + 3] << 24)
+                    i += 4
+                for bit, nm in ((2, "width"), (4, "precision"), (8, "index")):
+                    if b & bit:
+                        ph[nm] = bs[i] | (bs[i + 1] << 8)
+                        i += 2
+                out.append(ph)
             else:
                 return "?"
         return out
@@ -183,12 +200,14 @@ class StrFold:
                     return None
                 args = a[2][1] if len(a[2]) > 1 else ("array", [])
                 vals = []
+                raw = []
                 if args[0] == "array" and len(args) > 1:
                     for x in args[1]:
                         if isinstance(x, tuple) and x[0] == "call" and str(x[1]).endswith("::new_display") and x[2]:
                             vals.append(as_str(x[2][0]))
                         else:
                             vals.append(None)
+                        raw.append(x)
                 out, k = [], 0
                 for piece in t:
                     if piece is None:
@@ -196,6 +215,35 @@ class StrFold:
                             return None
                         out += vals[k][1]
                         k += 1
+                    elif isinstance(piece, dict):
+                        # placeholder with options: decided for an integer literal rendered decimal / hexadecimal with a fixed width
+                        idx = piece["index"] if piece["index"] is not None else k
+                        k = idx + 1
+                        if piece["indirect"] or piece["precision"] is not None or idx >= len(raw):
+                            return None
+                        x = raw[idx]
+                        if not (isinstance(x, tuple) and x[0] == "call" and x[2] and isinstance(x[2][0], tuple) and x[2][0][0] == "lit" and isinstance(x[2][0][1], int)
+                                and not isinstance(x[2][0][1], bool) and x[2][0][1] >= 0):
+                            return None
+                        kind = str(x[1]).rsplit("::", 1)[-1]
+                        if kind not in ("new_display", "new_lower_hex", "new_upper_hex"):
+                            return None
+                        txt = {"new_display": "%d", "new_lower_hex": "%x", "new_upper_hex": "%X"}[kind] % x[2][0][1]
+                        fl = piece["flags"] if piece["flags"] is not None else (0x20 | (3 << 29))
+                        if fl & ((1 << 21) | (1 << 23)):
+                            return None                        # explicit plus sign / alternate form: not modelled
+                        width = piece["width"] or 0
+                        fill = "0" if fl & (1 << 24) else chr(fl & 0x1FFFFF)
+                        align = (fl >> 29) & 3
+                        if len(txt) < width:
+                            pad = fill * (width - len(txt))
+                            if fl & (1 << 24) or align in (1, 3):
+                                txt = pad + txt                  # numbers are right-aligned by default
+                            elif align == 0:
+                                txt = txt + pad
+                            else:
+                                return None
+                        out.append(("c", txt))
                     else:
                         out.append(("c", piece))
                 return mk(out)
@@ -328,6 +376,13 @@ class StrFold:
                 return mk_bool(pred(ch if ch is not None else "7"))
         if s0 is None:
             return None
+        # ---- write!(text, ..): appends, or poisons the accumulator when the format cannot be folded (never a silent no-op)
+        if m == "write_fmt" and len(args) == 2 and ev.recv_local:
+            r = self.format_value(args[1])
+            if r is not None:
+                return {"env": {ev.recv_local: mk(s0[1] + r[1])}, "val": ("v", "Ok", [("unit",)])}
+            self.unknown.append("write_fmt")
+            return {"env": {ev.recv_local: ("unknown", "text written by a format the folding does not follow")}, "val": ("v", "Ok", [("unit",)])}
         # ---- equality of texts
         if m in ("eq", "ne") and len(args) == 2 and as_str(args[1]) is not None:
             r = self.equal(s0, as_str(args[1]))
